@@ -360,6 +360,7 @@ def decide(prop, tier, seed, t0, gen_fails, forbidden, build, driver_ok, driver_
             path = os.path.join(REPLAY, '%s_%s.json' % (prop, re.sub(r'[^A-Za-z0-9_.-]', '_', key)[:80]))
             with open(path, 'w') as fh:
                 json.dump({'property': prop, 'kind': 'failing-input', 'failure': f, 'broken': broken,
+                           'disagreements': report.disagreements[:3],
                            'seed': seed, 'tier': tier}, fh, indent=1, default=repr)
             lines.append('VIOLATION property=%s replay=%s' % (prop, path))
             violations += 1
@@ -393,6 +394,7 @@ def decide(prop, tier, seed, t0, gen_fails, forbidden, build, driver_ok, driver_
         'rule': report.rule,
         'samples': report.samples or ['(no sample recorded)'],
         'correspondence': report.corr,
+        'disagreement_samples': report.disagreements[:5],
         'input_distribution': report.distribution,
         'oracle_failures_unlisted': len(unexplained),
         'known_findings_observed': sorted(seen_known.keys()),
